@@ -14,7 +14,7 @@ use serde_json::{json, Value as J};
 use crate::av::*;
 use crate::sources::*;
 use crate::wirecases::panic_text;
-use crate::{read_cases, write_run, Args, Sink};
+use crate::{write_run, Args, Sink};
 
 pub fn pattern(n: usize, salt: u32) -> Vec<u8> {
     (0..n as u32).map(|i| ((i.wrapping_mul(2654435761).wrapping_add(salt)) >> 11) as u8 ^ (i as u8)).collect()
@@ -197,7 +197,24 @@ pub fn run(a: &Args) {
     let seed = a.num("seed", 1);
     let quick = a.get("tier").unwrap_or("quick") == "quick";
     let mut sink = Sink::new(&out, "trace");
-    let cases = read_cases(a.req("cases"));
+    // behaviours printed by TLC are streamed (the thorough generator prints hundreds of MB); beyond `limit` a seeded stride samples them
+    let cases_path = a.req("cases").to_string();
+    let limit = a.num("limit", u64::MAX) as usize;
+    let ncases = {
+        use std::io::BufRead;
+        std::io::BufReader::new(std::fs::File::open(&cases_path).expect("cases")).lines().count()
+    };
+    let stride = (ncases / limit.max(1)).max(1);
+    let cases = {
+        use std::io::BufRead;
+        std::io::BufReader::new(std::fs::File::open(&cases_path).expect("cases"))
+            .lines()
+            .enumerate()
+            .filter(move |(i, _)| i % stride == (seed as usize) % stride)
+            .filter_map(|(_, l)| l.ok())
+            .filter(|l| !l.trim().is_empty())
+            .map(|l| serde_json::from_str::<J>(&l).expect("case json"))
+    };
     let scales = [1usize, 7, 4096, 65536];
     let mut runs = 0u64;
     let mut samples = vec![];
@@ -225,7 +242,7 @@ pub fn run(a: &Args) {
             }
         }
     };
-    for (ci, c) in cases.iter().enumerate() {
+    for (ci, c) in cases.enumerate() {
         let kind = c["kind"].as_str().unwrap();
         let iface = c["iface"].as_str().unwrap();
         let plen_abs = c["plen"].as_u64().unwrap() as usize;
